@@ -698,9 +698,11 @@ class Lexer(object):
 
     @ply.lex.TOKEN(identifier)
     def t_ID(self, token):
-        if self.cur_token_real and self.cur_token_real.type == 'PERIOD':
-            # an IdentifierName that follows a dot is a property name,
-            # whether it is spelled like a reserved word or not
+        if self.cur_token_real and self.cur_token_real.type in (
+                'PERIOD', 'GETPROP', 'SETPROP'):
+            # an IdentifierName that follows a dot, or get/set in an
+            # accessor, is a property name, whether it is spelled like
+            # a reserved word or not
             return token
         token.type = self.keywords_dict.get(token.value, 'ID')
         return token
